@@ -441,7 +441,9 @@ def oracle(c, r):
     out = []
     valid = _expected_valid(c)
     err = "err" in r
-    if err and str(r["err"]).startswith(("Unexpected", "Crash", "MetricMap")):
+    if err and r["err"] == "MetricMap":
+        return [("metric-name-map", "cluster.util._get_distance_method: %s" % r.get("msg", ""))]
+    if err and str(r["err"]).startswith(("Unexpected", "Crash")):
         return [("harness-or-crash", "%s %s" % (r["err"], r.get("msg", "")))]
     if not valid:
         if not err:
